@@ -6,7 +6,7 @@
 From Coq Require Import Reals QArith Qreals List ZArith Bool Lra Permutation.
 Require Import Cox.Num.Ops Cox.Num.Transfer Cox.Geo.Vec Cox.Model.Mesh Cox.Model.Inside
   Cox.Thm.InsideThm Cox.Thm.InsideTransfer Cox.Thm.MeshTransfer Cox.Thm.Winding3Thm Cox.Thm.WindingThm Cox.Thm.Piercing
-  Cox.Model.Sphero Cox.Thm.SpheroThm Cox.Thm.SpheroComplete.
+  Cox.Model.Sphero Cox.Thm.SpheroThm Cox.Thm.SpheroComplete Cox.Thm.SpheroTransfer.
 Import ListNotations.
 
 (* convex: the normalised signed distance the code tests has the sign of the exact side value,
@@ -152,10 +152,32 @@ Theorem C05_spheropolyhedron_algorithm_spec :
          \/ exists F, In F Fs /\ to_check Rops r2 F x = true /\ exists y, in_faceP F y /\ (dist2 x y <= r2)%R).
 Proof. exact sphero_inside_spec. Qed.
 Print Assumptions C05_spheropolyhedron_algorithm_spec.
-(* partial: the one step NOT proved is global - that for a point outside the core and within r of it, the nearest point of the core lies on
-   a face whose plane the point is beyond (so that this face is among those looked at).  It is decided per instance against the exact
-   squared distance to the triangulated surface (Model/Inside.v surface_dist2): harness kinds spheropolyhedron-algorithm-vs-specification
-   and spheropolyhedron-model-vs-implementation. *)
+(* THE WHOLE SOLID.  For a face list that passes the exact certificate sphero_certb (every face a planar, strictly convex, counter-clockwise
+   cycle; along every edge a neighbouring face through both end points whose normal leans outward) - decided in Q for the implementation's
+   own face list on every run - any rounding radius and any point:
+     - COMPLETE: if some point of the core (all plane values <= 0) is within r, the algorithm accepts;
+     - SOUND: if it accepts, the point is in the core or within r of a point of a face.
+   (The segment from the near core point to x leaves the core through a face; that face is looked at - Cauchy-Schwarz - and its test is
+   complete.)  Stated for the rational face list / radius^2 / point the executable model is run on, about their real embeddings. *)
+Theorem C05_spheropolyhedron_is_inside_spec :
+  forall (r2 : Q) (Fs : list (list (vec3 Q))) (x : vec3 Q),
+    sphero_certb Qops Fs = true ->
+    let FsR := map (map Q2R3) Fs in
+    ((exists y : vec3 R, in_core Rops FsR y = true /\ (dist2 (Q2R3 x) y <= Q2R r2)%R) -> sphero_inside Qops r2 Fs x = true)
+    /\ (sphero_inside Qops r2 Fs x = true ->
+        in_core Rops FsR (Q2R3 x) = true \/ exists F y, In F FsR /\ in_faceP F y /\ (dist2 (Q2R3 x) y <= Q2R r2)%R).
+Proof.
+  intros r2 Fs x Hc FsR. rewrite sphero_certb_transfer in Hc. rewrite sphero_inside_transfer.
+  exact (sphero_is_inside_spec (Q2R r2) FsR (Q2R3 x) Hc).
+Qed.
+Print Assumptions C05_spheropolyhedron_is_inside_spec.
+
+(* the certificate is satisfiable: the unit cube *)
+Example C05_spheropolyhedron_cube_certified :
+  sphero_certb Qops
+    [[(0,0,0); (0,1,0); (1,1,0); (1,0,0)]; [(0,0,1); (1,0,1); (1,1,1); (0,1,1)]; [(0,0,0); (1,0,0); (1,0,1); (0,0,1)];
+     [(0,1,0); (0,1,1); (1,1,1); (1,1,0)]; [(0,0,0); (0,0,1); (0,1,1); (0,1,0)]; [(1,0,0); (1,1,0); (1,1,1); (1,0,1)]]%Q = true.
+Proof. vm_compute. reflexivity. Qed.
 Example C05_spheropolyhedron_face_example :
   face_wf ex_face /\ strictly_convex ex_face /\ to_check Rops (/ 4)%R ex_face (/ 2, - (3 / 10), 6 / 5)%R = true /\ check_face Rops (/ 4)%R ex_face (/ 2, - (3 / 10), 6 / 5)%R = true.
 Proof. split; [exact ex_face_wf | split; [exact ex_face_strictly_convex | exact ex_face_accepts]]. Qed.
